@@ -177,7 +177,11 @@ def run_case(case, prefix):
         # deliver frame by frame; an exception out of onRecvData is what the dispatcher callback sees
         nframe = 0
         while True:
+            had = len(w.server_out[i]) > 0 or w.dispatchers[i].closed
             sc.wait_until(lambda: len(w.server_out[i]) > 0 or w.dispatchers[i].closed, "server bytes")
+            if had:
+                # back in select() between two socket events: the other threads ran meanwhile for free
+                sc.env_point("next socket event")
             if w.dispatchers[i].closed:
                 return
             b = w.server_out[i]
